@@ -171,19 +171,22 @@ func truncB(b []byte) []byte {
 }
 
 var (
-	messageIface = reflect.TypeOf((*proto.Message)(nil)).Elem()
-	customIface  = reflect.TypeOf((*interface {
+	protoMarkerIface = reflect.TypeOf((*interface{ ProtoMessage() })(nil)).Elem()
+	messageIface     = reflect.TypeOf((*proto.Message)(nil)).Elem()
+	customIface      = reflect.TypeOf((*interface {
 		Size() int
 		MarshalTo([]byte) (int, error)
 		Unmarshal([]byte) error
 	})(nil)).Elem()
 )
 
-// IsImplType mirrors the library's dispatch: a type (or its pointer type)
-// implementing Message or the gogo-style custom interface.
+// IsImplType mirrors the library's dispatch (codecOf / selfDelimited): a type
+// (or its pointer type) implementing Message, or implementing the gogo-style
+// custom interface without carrying the ProtoMessage() marker.
 func IsImplType(t reflect.Type) bool {
 	pt := reflect.PointerTo(t)
-	return t.Implements(messageIface) || pt.Implements(messageIface) || t.Implements(customIface) || pt.Implements(customIface)
+	impl := func(i reflect.Type) bool { return t.Implements(i) || pt.Implements(i) }
+	return impl(messageIface) || impl(customIface) && !impl(protoMarkerIface)
 }
 
 // EncodesEmptyWZ is the model of "this value, encoded in want-zero position
